@@ -1015,8 +1015,8 @@ def load(odffile):
             doc.addThumbnail(z.read(mentry))
         elif mentry in (u'settings.xml', u'meta.xml', u'content.xml', u'styles.xml'):
             pass
-        elif mentry == u"/":
-            pass # the root entry is written by save() itself
+        elif mentry in (u"/", u"Thumbnails/"):
+            pass # these entries are written by save() itself
         # Load subobjects into structure
         elif mentry[:7] == u"Object " and mentry[-1] == u"/" and \
                 (mentry + u"content.xml" in manifest or mentry + u"styles.xml" in manifest):
